@@ -125,6 +125,7 @@ struct GenOpts {
     bool allow_threads = true;
     bool dup_heavy = false;  ///< C11: more and longer duplicate runs
     bool unsigned_only = false;
+    size_t span_multiple_edge = 0; ///< Bucketing: 1/4 of the arrays end so that (last - first) is m*M + d, d in {-1,0,+1}, M = this value
     bool pow2_span_edge = false; ///< Elias-Fano: 1/4 of the arrays end so that (last segment key - first key) is 2^k-3 .. 2^k (universe-size edge)
     const std::string *xkeys = nullptr;    ///< explicit keys from a replay file (run-length text), overrides the recipe
     const std::string *xthreads = nullptr; ///< explicit thread count from a replay file
@@ -408,6 +409,19 @@ std::vector<K> gen_keys(TapeReader &t, const GenOpts &o, KeyMeta &meta) {
             else m.push_back(top), m.push_back(top);
             rec << " POW2EDGE(k=" << k << ",mode=" << mode << ")";
             meta.pow2_edge = true;
+        }
+    }
+
+    // ---- bucket-width edge: the key span becomes a multiple of M (+-1), so that bucket boundaries coincide with the last key
+    if (o.span_multiple_edge && t.chance(1, 4) && m.size() >= 2) {
+        const i128 M = (i128) o.span_multiple_edge;
+        i128 span = m.back() - m.front();
+        uint64_t maxmult = (uint64_t) std::min<i128>(span / M + 1, (i128) 1 << 40);
+        i128 top = m.front() + M * (i128) (1 + t.below(maxmult)) + ((i128) t.below(3) - 1);
+        if (top > m.front() && top <= lat.hi) {
+            while (m.size() > 1 && m.back() >= top) m.pop_back();
+            m.push_back(top);
+            rec << " SPANEDGE(M=" << o.span_multiple_edge << ")";
         }
     }
 
